@@ -4,6 +4,7 @@ import (
 	"encoding/json"
 	"flag"
 	"fmt"
+	"go/types"
 	"os"
 	"path/filepath"
 	"sort"
@@ -31,6 +32,8 @@ func main() {
 		os.Exit(cmdVC(os.Args[2:]))
 	case "list":
 		os.Exit(cmdList(os.Args[2:]))
+	case "errfuncs":
+		os.Exit(cmdErrFuncs(os.Args[2:]))
 	case "replay":
 		os.Exit(cmdReplay(os.Args[2:]))
 	default:
@@ -126,6 +129,8 @@ type checkResult struct {
 	trustedUsed map[string]string
 	problems    []string
 	engineErrs  []string
+	assumed     []string
+	nosafety    []string
 }
 
 func (e *Engine) runTargets(ts []target, mode string) *checkResult {
@@ -144,6 +149,14 @@ func (e *Engine) runTargets(ts []target, mode string) *checkResult {
 		}
 		if fx.con.Flags["errflow"] != "" || hasFlag(fx.con, "errflow") {
 			fx.errflow = true
+		}
+		for _, r := range fx.con.Req {
+			if r.Kind == "assume" {
+				res.assumed = append(res.assumed, displayKey(fx.key)+": "+r.Text)
+			}
+		}
+		if fx.con != nil && hasFlag(fx.con, "nosafety") {
+			res.nosafety = append(res.nosafety, displayKey(fx.key))
 		}
 		name := displayKey(fx.key)
 		if t.iface != nil {
@@ -624,6 +637,12 @@ func report(e *Engine, prop, tier string, seed int, t0 time.Time, ts []target, r
 		assumptions = append(assumptions, "abstracted in "+f+": "+strings.Join(a, "; "))
 	}
 	sort.Strings(assumptions[5:])
+	for _, a := range dedup(res.assumed) {
+		assumptions = append(assumptions, "assumed invariant (clause `assume`): "+a)
+	}
+	if len(res.nosafety) > 0 {
+		assumptions = append(assumptions, "panic-freedom (nil/bounds/type assertions) is assumed, not claimed under this property, for: "+strings.Join(res.nosafety, ", "))
+	}
 	axs := e.usedAxioms()
 	for _, a := range axs {
 		assumptions = append(assumptions, "axiom (assumed, not proved): "+a)
@@ -698,4 +717,57 @@ func (e *Engine) usedAxioms() []string {
 		}
 	}
 	return out
+}
+
+// cmdErrFuncs lists functions of a package whose results include `error` (helper for writing errflow contracts)
+func cmdErrFuncs(args []string) int {
+	e, err := loadEngine(repoDir(), filepath.Join(verifDir, "spec", "trusted"))
+	if err != nil {
+		fmt.Fprintln(os.Stderr, err)
+		return 2
+	}
+	pkg := e.spkgs[repoMod+"/"+args[0]]
+	var out []string
+	seen := map[string]bool{}
+	var visit func(fn *ssa.Function)
+	visit = func(fn *ssa.Function) {
+		if fn == nil || len(fn.Blocks) == 0 || seen[fn.String()] || fn.Synthetic != "" {
+			return
+		}
+		seen[fn.String()] = true
+		pos := e.fset.Position(fn.Pos())
+		if strings.HasSuffix(pos.Filename, "_test.go") || strings.Contains(pos.Filename, "test_") {
+			return
+		}
+		res := fn.Signature.Results()
+		hasErr := false
+		for i := 0; i < res.Len(); i++ {
+			if isErrorType(res.At(i).Type()) {
+				hasErr = true
+			}
+		}
+		if hasErr {
+			out = append(out, displayKey(keyOfFunction(fn))+"\t"+filepath.Base(pos.Filename))
+		}
+		for _, a := range fn.AnonFuncs {
+			visit(a)
+		}
+	}
+	for _, m := range pkg.Members {
+		switch x := m.(type) {
+		case *ssa.Function:
+			visit(x)
+		case *ssa.Type:
+			if nt, ok := x.Type().(*types.Named); ok {
+				for i := 0; i < nt.NumMethods(); i++ {
+					visit(e.prog.FuncValue(nt.Method(i)))
+				}
+			}
+		}
+	}
+	sort.Strings(out)
+	for _, o := range out {
+		fmt.Println(o)
+	}
+	return 0
 }
